@@ -73,7 +73,34 @@ func advPrefix(n enc.Name) enc.Name {
 		enc.NewStringComponent(enc.TypeKeywordNameComponent, "ADV"))...)
 }
 
+// obsPfxSync: for every remote publisher, what we hold for it against what it really announces
+func (c *netCase) obsPfxSync() {
+	var idx []int
+	for i := range c.pubs {
+		idx = append(idx, i)
+	}
+	sort.Ints(idx)
+	for _, i := range idx {
+		p := c.pubs[i]
+		var mine, theirs []int
+		known := uint64(0)
+		c.r.Vf19Locked(func() {
+			if rec := c.r.Vf19Pfx().Vf19Peek(p.cfg.RouterName()); rec != nil {
+				known = rec.Known
+				for _, e := range rec.Prefixes {
+					mine = append(mine, c.in.id(e.Name))
+				}
+			}
+		})
+		for _, e := range p.pt.Vf19Me().Prefixes {
+			theirs = append(theirs, c.in.id(e.Name))
+		}
+		fmt.Fprintf(c.w, "obs pfxsync %d %d %d %s %s\n", c.in.id(p.cfg.RouterName()), known, p.pt.Vf19Me().Latest, idsCSV(mine), idsCSV(theirs))
+	}
+}
+
 func (c *netCase) observe() {
+	c.obsPfxSync()
 	c.dumpTables()
 	fmt.Fprintln(c.w, "go net")
 	fmt.Fprintf(c.w, "obs cmds %s\n", c.drain())
@@ -173,10 +200,16 @@ func (c *netCase) exec(op string) {
 		time.Sleep(time.Duration(atoi(f[1])) * time.Millisecond)
 	case "deadcheck":
 		c.r.Vf19CheckDeadNeighbors()
-	case "pa":
-		c.pub(atoi(f[1])).pt.Announce(c.pfxs[atoi(f[2])])
-	case "pw":
-		c.pub(atoi(f[1])).pt.Withdraw(c.pfxs[atoi(f[2])])
+	case "pa", "pw": // a publisher never announces a nameless prefix (readvertise rejects it): nil stands for "/" here
+		n := c.pfxs[atoi(f[2])]
+		if n == nil {
+			n = enc.Name{}
+		}
+		if f[0] == "pa" {
+			c.pub(atoi(f[1])).pt.Announce(n)
+		} else {
+			c.pub(atoi(f[1])).pt.Withdraw(n)
+		}
 	case "pclear": // pclear router n: n announce/withdraw pairs that leave the set as it is, then withdraw everything
 		p := c.pub(atoi(f[1]))
 		q := c.pfxs[len(c.pfxs)-1]
